@@ -2,15 +2,24 @@
    property text, not from the emitter:
      - exactly one final newline; first non-frontmatter, non-sentinel line ===NAME===; last line ===END===
      - outside literal zones: no TAB, no trailing blank, even indentation that rises by at most 2
-     - outside strings, comments and zones: no ASCII operator alias (-> <-> + ~ | & # vs), no blank next to ::  *)
+     - outside strings, comments and zones: no ASCII operator alias (-> <-> + ~ | & # vs), no blank next to ::
+       (`vs` counts as an alias only at a token start: not after a word character and not after `$` `.` `-`, where the
+        lexer is inside a VARIABLE / IDENTIFIER token; `vs` followed by `.`/`-` is still the alias)
+     - a VARIABLE token `$` followed by the maximal run of [A-Za-z0-9_:] (the lexer's \$[A-Za-z0-9_:]+) is an atom:
+       nothing inside it is inspected (`$a:vs`, `$KEY::value` are one token each)  *)
 From OV Require Import Base.Strs.
 Require Coq.Strings.String.
 Import Coq.Strings.String.StringSyntax.
 Open Scope N_scope.
 
 Definition word_chr (c : N) : bool := is_alnum c || N.eqb c c_us.
+(* the characters of a VARIABLE token after its `$` *)
+Definition var_chr (c : N) : bool := is_alnum c || N.eqb c c_us || N.eqb c c_colon.
 
-(* scan the code part of one line. prev = previous code character (0 at line start); instr = inside a quoted string *)
+(* scan the code part of one line. prev = previous code character (0 at line start); instr = inside a quoted string;
+   esc = the previous string character was a backslash.  The state (instr = false, esc = true), which the string
+   machinery never produces, means: INSIDE A VARIABLE TOKEN (entered at `$` followed by a variable character, left at
+   the first character that is not a variable character, which is then scanned as code). *)
 Fixpoint scan_code (s : str) (prev : N) (instr : bool) (esc : bool) : bool :=
   match s with
   | [] => true
@@ -20,14 +29,23 @@ Fixpoint scan_code (s : str) (prev : N) (instr : bool) (esc : bool) : bool :=
         else if N.eqb c c_bs then scan_code r c true true
         else if N.eqb c c_dq then scan_code r c false false
         else scan_code r c true false
+      else if esc && var_chr c then scan_code r c false true                          (* inside a VARIABLE token: not inspected *)
       else if N.eqb c c_dq then scan_code r c true false
       else if N.eqb c c_slash && prefixb [c_slash] r then true                       (* comment to end of line *)
+      else if N.eqb c 36 && (match r with x :: _ => var_chr x | [] => false end) then
+        scan_code r c false true                                                     (* `$` opening a VARIABLE token *)
       else if memb c [126; 124; 38; 35] then false                                    (* ~ | & # *)
       else if N.eqb c c_plus then
         (* only the exponent sign of a number: digit|. e + digit *)
         (N.eqb prev 101 || N.eqb prev 69) && (match r with d :: _ => is_digit d | [] => false end) && scan_code r c false false
       else if N.eqb c c_dash && prefixb [c_gt] r then false                           (* -> and <-> *)
-      else if N.eqb c 118 && prefixb [115] r && negb (word_chr prev) &&
+      (* the operator alias `vs`: only where a TOKEN starts at this v.  After a word character, or after `$` `.` `-`,
+         the lexer is still inside a VARIABLE / IDENTIFIER token (`$vs`, `a.vs`, `x-vs` are ONE token each), so that is no
+         alias.  The test on the character AFTER `vs` stays a plain word-boundary test: in `vs.x` / `vs-x` the lexer reads
+         the operator `vs` first and then the rest, so a bare `vs.x` IS an alias occurrence (the known reserved-segment
+         finding of C04) and must keep being flagged.  (The `$` exemption is kept although the VARIABLE rule above
+         already skips `$vs`: a `$` that is followed by a variable character never leaves a `v` to be scanned here.) *)
+      else if N.eqb c 118 && prefixb [115] r && negb (word_chr prev) && negb (memb prev [36; 46; 45]) &&
               (match r with _ :: x :: _ => negb (word_chr x) | _ => true end) then false   (* the word vs *)
       else if N.eqb c c_colon && prefixb [c_colon] r && negb (N.eqb prev c_colon) then
         negb (N.eqb prev c_sp) && scan_code r c false false                          (* first colon of :: *)
